@@ -330,18 +330,48 @@ func genOptions(r *Repo) (string, error) {
 		if fd == nil {
 			return "", fmt.Errorf("%s not found", name)
 		}
+		// The loop is reported by its meaning, not its text: "backward over <slice>" for `for i := len(s) - 1; i >= 0; i--`
+		// and for `range slices.Backward(s)`; "forward over <slice>" for `for i := 0; i < len(s); i++` and `range s`; the
+		// text otherwise. In the conditions the current element (`s[i]`, or the range variable) is written `$`.
 		loop, conds := "", []string{}
+		elem := ""
 		ast.Inspect(fd.Body, func(m ast.Node) bool {
 			switch x := m.(type) {
 			case *ast.ForStmt:
+				init, cond, post := strings.ReplaceAll(r.Text(x.Init), " ", ""), strings.ReplaceAll(r.Text(x.Cond), " ", ""), strings.ReplaceAll(r.Text(x.Post), " ", "")
 				loop = strings.Join(strings.Fields(r.Text(x.Init)+"; "+r.Text(x.Cond)+"; "+r.Text(x.Post)), " ")
+				if as, ok := x.Init.(*ast.AssignStmt); ok && len(as.Lhs) == 1 {
+					iv := r.Text(as.Lhs[0])
+					if strings.HasPrefix(init, iv+":=len(") && strings.HasSuffix(init, ")-1") && cond == iv+">=0" && post == iv+"--" {
+						sl := init[len(iv+":=len(") : len(init)-len(")-1")]
+						loop, elem = "backward over "+sl, sl+"["+iv+"]"
+					} else if init == iv+":=0" && strings.HasPrefix(cond, iv+"<len(") && post == iv+"++" {
+						sl := cond[len(iv+"<len(") : len(cond)-1]
+						loop, elem = "forward over "+sl, sl+"["+iv+"]"
+					}
+				}
 			case *ast.RangeStmt:
-				loop = "range " + r.Text(x.X)
+				xs := r.Text(x.X)
+				loop = "range " + xs
+				val := ""
+				if x.Value != nil {
+					val = r.Text(x.Value)
+				}
+				if strings.HasPrefix(xs, "slices.Backward(") && strings.HasSuffix(xs, ")") && val != "" {
+					loop, elem = "backward over "+xs[len("slices.Backward("):len(xs)-1], val
+				} else if val != "" && val != "_" {
+					loop, elem = "forward over "+xs, val
+				}
 			case *ast.IfStmt:
 				conds = append(conds, strings.Join(strings.Fields(r.Text(x.Cond)), " "))
 			}
 			return true
 		})
+		if elem != "" {
+			for i := range conds {
+				conds[i] = strings.ReplaceAll(conds[i], elem, "$")
+			}
+		}
 		fmt.Fprintf(&sb, "def loop_%s : String := %s\ndef conds_%s : List String := %s\n", name, leanStr(loop), name, leanStrList(conds))
 	}
 
